@@ -11,7 +11,7 @@ package scheduler
 //@ func (*InMemoryBuildQueue).enter
 //@   props C14
 //@   lockeffect bq.lock +1
-//@   havoc F:pkg/scheduler.worker.terminating -- while the lock was not held another thread (TerminateWorkers, worker clean-up) may have marked workers as terminating
+//@   havoc F:pkg/scheduler.worker.terminating F:pkg/scheduler.sizeClassQueue.drains -- while the lock was not held another thread may have marked workers as terminating (TerminateWorkers, worker clean-up) or changed the set of drains (AddDrain, RemoveDrain; modelled as a different drain set)
 //@ func (*InMemoryBuildQueue).leave
 //@   props C14
 //@   lockeffect bq.lock -1
@@ -118,8 +118,9 @@ package scheduler
 //@   props C05
 //@   pure
 //@   ensures terminating-workers-count-as-drained: w.terminating ==> r0
+//@   ensures_assumed r0 == (w.terminating || ufb("matchesadrain", scq.drains, workerID)) -- whether a worker matches a drain is a function of the drain set and the worker ID (workerMatchesPattern has no state)
 //@ func (*worker).getNextTask
 //@   props C05
-//@   loop 0 invariant flag-is-not-stale: (!isDrained ==> !w.terminating) && w == old(w) && scq == old(scq) && bq == old(bq)
+//@   loop 0 invariant flag-is-not-stale: isDrained == (w.terminating || ufb("matchesadrain", scq.drains, workerID)) && w == old(w) && scq == old(scq) && bq == old(bq) && workerID == old(workerID)
 //@   at call assignNextQueuedTask#1 assert never-hands-work-to-a-terminating-worker: !w.terminating
 //@   at call assignNextQueuedTask#2 assert never-hands-work-to-a-terminating-worker: !w.terminating
